@@ -226,7 +226,11 @@ impl Core {
     /// the sender-side mechanism of finding D26 explains that `oi` is not delivered: the object itself was
     /// sent truncated, or every FDT instance the sender emitted was (so nothing announces the object)
     fn raptor_lt4_explains(&self, s: &Session, oi: &ObjInfo) -> bool {
-        self.obj_truncated(s, oi) || (!s.fdts.is_empty() && s.fdts.iter().all(|f| self.fdt_truncated(s, f)))
+        // (since /repo 6808824 a source whose FIRST block cannot be encoded sends nothing at all: a session whose
+        // default OTI is Raptor and that never emitted a single FDT packet)
+        self.obj_truncated(s, oi)
+            || (!s.fdts.is_empty() && s.fdts.iter().all(|f| self.fdt_truncated(s, f)))
+            || (s.sp.oti.sch == Scheme::Raptor && !s.stream.iter().any(|d| d.toi == 0))
     }
 
     fn oracle_sender_panic(&self, s: &Session, p: &str, o: &mut Oracle) {
